@@ -1,5 +1,5 @@
 (* Properties/C14.v — loading through a base class.  Only statements closed by `exact`, each followed by Print Assumptions.
-   Every theorem holds for ALL class tables (any depth, any branching, any field sets) and for EVERY enumeration order of
+   Every theorem holds for ALL class tables (any depth, any branching, any field sets, init and init=False fields) and for EVERY enumeration order of
    all_subclasses (enum_ok only says that the enumeration lists exactly the classes below). *)
 From Coq Require Import Permutation.
 From SPV Require Import Base.Str Model.Subclass Model.SubclassSpec Gen.FactsSubclass Proofs.SubclassProofs.
@@ -19,7 +19,7 @@ Print Assumptions C14_default_drop_rule.
 (* a dict with keys the base does not know, loaded without dropping: the result class is strictly below the base, has
    EVERY serialized key, and no class below the base that has them all has fewer fields *)
 Theorem C14_superset : forall h modname enum base dropo kvs R fs B,
-  wf_hier_gen h = true -> init_only h = true -> enum_ok h enum -> sf_get DC_TYPE_KEY kvs = None ->
+  wf_hier_gen h = true -> enum_ok h enum -> sf_get DC_TYPE_KEY kvs = None ->
   find_class h base = Some B -> has_all B (sf_keys kvs) = false -> eff_drop_gen h base dropo = false ->
   from_ser_gen h modname enum base dropo (SMap kvs) = Ok (VObj R fs) ->
   min_superset h base (sf_keys kvs) R = true.
@@ -28,7 +28,7 @@ Print Assumptions C14_superset.
 
 (* ... and when the base knows every key, the result is the base itself *)
 Theorem C14_no_extra_keys_is_base : forall h modname enum base dropo kvs R fs B,
-  wf_hier_gen h = true -> init_only h = true -> enum_ok h enum -> sf_get DC_TYPE_KEY kvs = None ->
+  wf_hier_gen h = true -> enum_ok h enum -> sf_get DC_TYPE_KEY kvs = None ->
   find_class h base = Some B -> has_all B (sf_keys kvs) = true ->
   from_ser_gen h modname enum base dropo (SMap kvs) = Ok (VObj R fs) ->
   R = base.
@@ -38,22 +38,12 @@ Print Assumptions C14_no_extra_keys_is_base.
 (* if no other class at or below the base has d's field set, the serialized form of ANY instance of d loads, through the
    base, as an instance of d equal to the original (whatever the enumeration order, wherever d sits below the base) *)
 Theorem C14_identified : forall h modname enum base dropo d fs,
-  wf_hier_gen h = true -> init_only h = true -> enum_ok h enum ->
+  wf_hier_gen h = true -> enum_ok h enum ->
   In d h -> identified h base d = true -> flat_class d = true -> flat_fields fs = true ->
   vf_keys fs = field_names d -> eff_drop_gen h base dropo = false ->
   from_ser_gen h modname enum base dropo (to_ser_gen modname false (VObj (c_name d) fs)) = Ok (VObj (c_name d) fs).
 Proof. exact identified_gen. Qed.
 Print Assumptions C14_identified.
-
-(* ... but only where every field is an init field (init_only): FALSE of the faithful model otherwise - a derived class
-   with a field(init=False) cannot be loaded through its base at all (RuntimeError), although its field set identifies it *)
-Theorem C14_identified_refuted :
-  exists h modname enum base dropo d fs,
-    wf_hier_gen h = true /\ enum_ok h enum /\ In d h /\ identified h base d = true /\ flat_class d = true
-    /\ flat_fields fs = true /\ vf_keys fs = field_names d /\ eff_drop_gen h base dropo = false
-    /\ from_ser_gen h modname enum base dropo (to_ser_gen modname false (VObj (c_name d) fs)) = Err (Raise "RuntimeError").
-Proof. exact identified_refuted. Qed.
-Print Assumptions C14_identified_refuted.
 
 (* drop_extra_fields=True (or the default with decode_into_subclasses off): exactly the base class, with exactly its fields *)
 Theorem C14_drop : forall h modname enum base dropo kvs v,
@@ -90,10 +80,11 @@ Proof. exact dc_types_partial_gen. Qed.
 Print Assumptions C14_dc_types_partial.
 
 (* non-vacuity: a concrete hierarchy inside the theorems' domain (identical siblings D1/D3, an identified grandchild G,
-   a holder two levels deep), in the reversed enumeration order, and what the model answers on it *)
+   a holder two levels deep, a class with a field(init=False) next to a sibling with the same init fields), in the
+   reversed enumeration order, and what the model answers on it *)
 (* ex_h, ex_enum, ex_g, ex_d1, ex_o are defined at the end of Proofs/SubclassProofs.v *)
 Example C14_nonvacuous :
-  wf_hier_gen ex_h = true /\ init_only ex_h = true
+  wf_hier_gen ex_h = true
   /\ map c_name (descendants ex_h "Base") = ["D1"; "D3"; "G"] /\ ex_enum "Base" = ["G"; "D3"; "D1"]
   /\ (exists g, find_class ex_h "G" = Some g /\ identified ex_h "Base" g = true /\ flat_class g = true)
   /\ (exists d, find_class ex_h "D1" = Some d /\ identified ex_h "Base" d = false)
@@ -105,6 +96,9 @@ Example C14_nonvacuous :
   /\ from_ser_gen ex_h "m" ex_enum "Base" (Some true) (to_ser_gen "m" false ex_g) = Ok (VObj "Base" (VCons "a" (VInt 1) VNil))
   /\ wt ex_h ex_o = true /\ dc_only ex_o = true
   /\ from_ser_gen ex_h "m" ex_enum "O" (Some true) (to_ser_gen "m" true ex_o) = Ok ex_o
+  /\ wf_hier_gen noninit_h = true
+  /\ from_ser_gen noninit_h "m" noninit_enum "Base" None (to_ser_gen "m" false noninit_v) = Ok noninit_v
+  /\ from_ser_gen noninit_h "m" noninit_enum "Base" None (to_ser_gen "m" false noninit_v2) = Ok noninit_v2
   /\ from_ser_gen refute_h "m" refute_enum "H" None (to_ser_gen "m" true refute_v)
      = Ok (VObj "H" (VCons "xs" (VList (VCons "" (VObj "D3" (VCons "a" (VInt 1) (VCons "b" (VInt 2) VNil))) VNil)) VNil)).
 Proof. vm_compute. repeat split; try reflexivity; eexists; repeat split; reflexivity. Qed.
